@@ -3,6 +3,17 @@
 import json, subprocess
 HOOK = subprocess.run(["git","-C","/repo","log","--format=%H","--grep=^verif hook"],capture_output=True,text=True).stdout.split()
 CHECKS = {
+ "C02": ("E-SEQ", "exhaustive enumeration of all concatenations of <= k text atoms (words, Unicode whitespace, punctuation, combining characters, emoji, CJK); output compared with an independent splice of the reported occurrences; token-wise accounting on streams", "4.C02", "atom alphabet; the tokenizer is reached through the cfg-guarded hook"),
+ "C04": ("E-SWEEP", "exhaustive enumeration of every rank x inflection x spelling variant through validator, scanner and occurrence fields, against reference ordinal spellers", "4.C04", "ordinal spellers and marker table are the specification; ranks up to the stated bound"),
+ "C05": ("E-SWEEP", "exhaustive product of integer parts x all fraction digit strings up to the length bound x frames, plus negative cases, against reference spellers", "4.C05", "integer parts are a stated finite set, fractions exhaustive to length 4 (structured 5-6 in thorough)"),
+ "C08": ("E-SWEEP", "exhaustive enumeration of all pairs (a,b) in [0,99]^2 x joiner x language against the allowed-outcome set computed on morphemes; all dictated digit strings up to the length bound", "4.C08", "fusion judged on morphemes of the reference spellers with the conjunction removed"),
+ "C10": ("E-SEQ", "exhaustive enumeration of all ordered pairs of phrases <= k symbols x strong separators x thresholds, differential oracle rewrite(A S B) = rewrite(A) S rewrite(B); all number pairs x punctuation", "4.C10", "context alphabet per language; two separators"),
+ "C11": ("E-SEQ", "exhaustive enumeration of word sequences <= k x 5 recasings x thresholds, metamorphic comparison with the lower-case original on token path, text path and validator", "4.C11", "recasings with irreversible case mapping are skipped as the quantifier requires"),
+ "C13": ("E-SEQ", "exhaustive enumeration of word sequences <= k over the full vocabulary, differential comparison of Language::L with L::new() on every API function and trait method; exhaustive 1-2 letter code strings for the lookup", "4.C13", "ISO 639-1 list embedded in the harness"),
+ "C14": ("E-SEQ + E-SCHED", "exhaustive call histories <= k and iterator merge orders; exhaustive thread interleavings at call/callback scheduling points up to a preemption bound under a controlled scheduler (CHESS-style re-execution); Send+Sync compile probe; silent child process", "4.C14", "scheduling points are call boundaries and library callbacks; finer-grained races are outside a cooperative scheduler"),
+ "C16": ("E-SWEEP", "exhaustive enumeration of (n, k zeros) through validator and scanner, plus trailing zero and lone zero", "4.C16", "standard spellings; n up to the dense bound plus the group product"),
+ "C17": ("E-SEQ", "exhaustive enumeration of word sequences <= k x whitespace substitutions (uniform, one run at a time, prepend, append) x 10 whitespace strings, metamorphic comparison", "4.C17", "Unicode White_Space characters only"),
+ "C18": ("E-SEQ", "exhaustive enumeration of English token sequences <= k containing 'o' in three renderings x thresholds against the neighbour rule of the statement (model text with zero / ordinary word)", "4.C18", "a neighbour is a number word iff it validates on its own"),
  "C01": ("E-SWEEP", "exhaustive range/product enumeration of (language, n, spelling variant, frame) through the real validator and scanner, against reference spellers", "4.C01",
          "all integers below the dense bound with every variant combination, the group product up to 10^12 and per-position sweeps; beyond these bounds nothing is claimed"),
  "C03": ("E-SEQ", "exhaustive enumeration of all strings <= k over a 16-character alphabet and all atom sequences <= k over the full vocabulary, every entry point x threshold, in child processes", "4.C03",
